@@ -268,8 +268,61 @@ static void rough_case(Rng& rng, uint64_t)
 		sample(J().d("got", r.value).i("evaluations", (long long) r.tr.n).i("warned", r.warned));
 }
 
+// --- (4) re-entrancy: the integrand of one Integrate call itself calls Integrate with another depth (nested integrals are the library's own idiom,
+// see Integrate_2D).  The evaluation-count bound and the location clause must hold for the outer and for every inner call.
+static void nested_case(Rng& rng, uint64_t)
+{
+	bool outer_shallow = rng.coin();
+	int d_out = outer_shallow ? rng.irange(0, 5) : rng.irange(9, 12), d_in = outer_shallow ? rng.irange(8, 14) : rng.irange(0, 3);
+	double a = rng.uni(-2, 0), b = a + rng.uni(0.5, 3), c = rng.uni(-1, 1), d = c + rng.uni(0.5, 2);
+	double kx = rng.uni(a, b), ky = rng.uni(c, d);	 // kinks: neither level converges early
+	double eps_out = rng.loguni(1e-16, 1e-12), eps_in = rng.loguni(1e-16, 1e-12);
+	set_params(J().d("a", a).d("b", b).d("c", c).d("d", d).i("outer_depth", d_out).i("inner_depth", d_in).d("outer_epsilon", eps_out).d("inner_epsilon", eps_in).d("kink_x", kx).d("kink_y", ky));
+	hash_param(a), hash_param(b), hash_param(c), hash_param(d), hash_param_u(d_out * 100 + d_in), hash_param(kx), hash_param(ky);
+	mark_nontrivial();
+	uint64_t outer_evals = 0, inner_calls = 0, worst_inner = 0;
+	bool inner_inside = true, outer_inside = true;
+	std::function<double(double)> outer = [&](double x) {
+		outer_evals++;
+		if(!(x >= a && x <= b))
+			outer_inside = false;
+		uint64_t n = 0;
+		std::function<double(double)> inner = [&](double y) {
+			n++;
+			if(!(y >= c && y <= d))
+				inner_inside = false;
+			return (1 + std::fabs(y - ky)) * (1 + 0.1 * x);
+		};
+		StreamCapture cap2;
+		double v = Integrate(inner, c, d, eps_in, d_in);
+		inner_calls++;
+		worst_inner = std::max(worst_inner, n);
+		return v * (1 + std::fabs(x - kx));
+	};
+	StreamCapture cap;
+	double got = Integrate(outer, a, b, eps_out, d_out);
+	// exact value: int (1+|y-ky|) dy * int (1+0.1x)(1+|x-kx|) dx
+	auto Iabs = [](ld lo, ld hi, ld k) { return (hi - lo) + ((k - lo) * (k - lo) + (hi - k) * (hi - k)) / 2; };
+	ld Iy = Iabs(c, d, ky);
+	auto P = [&](ld x, ld sgn) {   // antiderivative of (1+0.1x)(1+sgn(x-kx))
+		ld A = 1 - sgn * kx;
+		return A * x + (0.1L * A + sgn) * x * x / 2 + 0.1L * sgn * x * x * x / 3;
+	};
+	ld Ix = (P(kx, -1) - P(a, -1)) + (P(b, 1) - P(kx, 1));
+	ld exact = Iy * Ix;
+	auto det = [&] { return J().d("got", got).d("exact", (double) exact).i("outer_evaluations", (long long) outer_evals).i("inner_calls", (long long) inner_calls).i("largest_inner_evaluation_count", (long long) worst_inner); };
+	judge("nested-outer-evaluation-count-at-most-2^(depth+2)+1", (double) outer_evals, std::ldexp(1.0, d_out + 2) + 1, det);
+	judge("nested-inner-evaluation-count-at-most-2^(depth+2)+1", (double) worst_inner, std::ldexp(1.0, d_in + 2) + 1, det);
+	require("evaluations-inside-closed-interval", outer_inside && inner_inside, det);
+	// accuracy: the kinks limit what a shallow level can reach; a deep level resolves its kink to 2^-depth of the interval (error ~ h^2 * jump in slope)
+	double h_out = (b - a) * std::ldexp(1.0, -d_out), h_in = (d - c) * std::ldexp(1.0, -d_in);
+	double tol = (double) fabsl(exact) * (4 * (h_out * h_out + h_in * h_in) + 1e-9);
+	judge("nested-integral-value", (double) fabsl((ld) got - exact), tol, det);
+}
+
 static void setup()
 {
+	add_generator("nested_reentrant", ctx().count(1500, 60000), nested_case);
 	add_generator("polynomials", ctx().count(60000, 3000000), poly_case);
 	add_generator("regular_families", ctx().count(16000, 800000), regular_case);
 	add_generator("quartic_splines", ctx().count(3000, 150000), spline_case);
